@@ -50,7 +50,10 @@ RULE = ("G: get_tm (gmtime_r) of EVERY day 1970-01-01..2099-12-31 against civil_
         "the seconds around 2^31, random nanosecond instants, a few outside the range; "
         "P: valid texts of every field type (17/21 and 8/12 character forms, 6/8 MonthYear) plus malformed ones (wrong "
         "length, non-digits, bytes >= 0x80, month 00/13/14, truncated); L: precisions 0..9 on instants with nsec in "
-        "{0, 4*10^k, 5*10^k, 999999999-j, decimal ties, random} and second-of-minute in {0,58,59,random}. "
+        "{0, 4*10^k, 5*10^k, 999999999-j, decimal ties, random} and second-of-minute in {0,58,59,random}; "
+        "S: CALL SEQUENCES of the log renderer inside one harness process (it is specified as stateless): instants of the "
+        "same minute with other seconds (ascending, descending, same), precisions mixed (9 then 0, 0 then 0, 3 then 0), both "
+        "use_gm values also interleaved, minute boundaries (:59, next :00, back), each call rendered independently by the model. "
         "non-trivial = day/instant in range and not the epoch (G, T), constructor returned ticks (P), nsec != 0 and dplaces > 0 (L); "
         "distinct = distinct case lines")
 
@@ -296,8 +299,44 @@ def gen_L(rng, tier):
     return cs
 
 
+def S(calls, cls):
+    return Case("S " + " ".join("%d,%d,%d,%d" % c for c in calls), cls)
+
+
+def gen_S(rng, tier):
+    """Call sequences in ONE harness process: the renderer is specified as stateless, so renderings of instants
+    of the same minute (other second, other precision, other zone flag) and across minute boundaries must not
+    influence each other.  nsecs stay below 0.9 s so that the known carry-to-60 finding is not involved."""
+    cs = []
+    thorough = tier == "thorough"
+
+    def ns():
+        return rng.choice((0, 1, 499999999, rng.randrange(900000000)))
+
+    minutes = [0, 1, day_of(2000, 2, 29) * 1440 + 1439, day_of(2038, 1, 19) * 1440 + 194, DAYS * 1440 - 1]
+    minutes += [rng.randrange(0, DAYS * 1440 - 1) for _ in range(60 if thorough else 12)]
+    for m in minutes:
+        b = m * 60
+        for g in (1, 0):
+            s1, s2 = sorted(rng.sample(range(60), 2))
+            for d1 in (9, 0, 3):
+                cs.append(S([(b + s1, ns(), d1, g), (b + s2, ns(), 0, g)], "seq-ascending"))
+                cs.append(S([(b + s2, ns(), d1, g), (b + s1, ns(), 0, g)], "seq-descending"))
+                cs.append(S([(b + s1, ns(), d1, g), (b + s1, ns(), 0, g), (b + s2, ns(), 0, g)], "seq-same-second"))
+            # minute boundary: :59, next minute :00, and back
+            if m + 1 < DAYS * 1440:
+                cs.append(S([(b + 59, ns(), rng.choice((0, 3, 9)), g), (b + 60, ns(), 0, g), (b + 59, ns(), 0, g),
+                             (b + 61, ns(), 0, g)], "seq-minute-boundary"))
+        # both zone flags interleaved, and a longer random walk inside the minute
+        cs.append(S([(b + rng.randrange(60), ns(), 0, 1), (b + rng.randrange(60), ns(), 0, 0),
+                     (b + rng.randrange(60), ns(), 0, 1), (b + rng.randrange(60), ns(), 0, 0)], "seq-zone-mix"))
+        cs.append(S([(b + rng.randrange(60), ns(), rng.choice((0, 0, 0, 3, 6, 9)), rng.randrange(2))
+                     for _ in range(6)], "seq-random"))
+    return cs
+
+
 def gen_cases(rng, tier):
-    cs = gen_G(rng, tier) + gen_T(rng, tier) + gen_P(rng, tier) + gen_L(rng, tier)
+    cs = gen_G(rng, tier) + gen_T(rng, tier) + gen_P(rng, tier) + gen_L(rng, tier) + gen_S(rng, tier)
     # trapping cases last: the harness is restarted after each, with nothing left to re-feed
     return [c for c in cs if c.cls != "overrun"] + [c for c in cs if c.cls == "overrun"]
 
@@ -319,6 +358,8 @@ def nontrivial(case, r):
         return int(w[2]) != 0 and int(w[3]) > 0
     if w[0] == "G":
         return 0 < int(w[1]) < DAYS
+    if w[0] == "S":
+        return len(w) >= 3
     return False
 
 
@@ -376,6 +417,12 @@ def extra_search(rng, seeds, tier):
         elif w[0] == "L":
             for d in range(10):
                 out.append(L(int(w[1]), int(w[2]), d, "neighbour"))
+        elif w[0] == "S":
+            calls = [tuple(int(x) for x in it.split(",")) for it in w[1:]]
+            for i in range(len(calls)):
+                for j in range(len(calls)):
+                    if i != j:
+                        out.append(S([calls[i], calls[j]], "neighbour"))
     r2 = rng
     # every third day before 2038 with two instants, valid texts, log cases
     for d in range(r2.randrange(3), 24855, 3):
@@ -384,6 +431,14 @@ def extra_search(rng, seeds, tier):
     out += [c for c in gen_P(r2, "quick") if c.cls == "valid-text"]
     out += gen_L(r2, "quick")
     return out
+
+
+def shrink(case):
+    """call sequences: drop one call at a time"""
+    w = case.line.split()
+    if w[0] != "S" or len(w) <= 3:
+        return []
+    return [Case("S " + " ".join(w[1:i] + w[i + 1:]), "shrink") for i in range(1, len(w))]
 
 
 def EXHAUSTIVE(tier):
